@@ -506,6 +506,8 @@ def parse_case_text(txt):
             cur["freeze"] = [int(w[1]), int(w[2])]
         elif w[0] == "elem":
             cur["elem"] = w[1]
+        elif w[0] == "chunkstyle":
+            cur["chunkstyle"] = w[1]
         elif w[0] == "c0":
             cur["c0"] = int(w[1])
         elif w[0] == "multi":
@@ -588,6 +590,13 @@ def explore(prop, cfg, cases, binp, label, props_chk, out):
             rec["model_trace"] = ml
             out["violations"].append(rec)
             continue
+        if prop in ("C16", "C17", "C18") and any(f.startswith("unparsed:panic") for f in fl):
+            rec["what"] = "an operation panicked with a panic that is none of the documented ones: %s" % "; ".join(f for f in fl if f.startswith("unparsed"))
+            rec["checker"] = "undocumented-panic"
+            rec["impl_trace"] = il
+            rec["model_trace"] = ml
+            out["violations"].append(rec)
+            continue
         mfailed = [p for p, ok in mchk.get(cid, {}).items() if not ok]
         if mfailed:
             rec["what"] = "checker(s) %s return false on the MODEL trace (theorem and model disagree?)" % ",".join(mfailed)
@@ -648,6 +657,11 @@ def random_search(prop, cfg, cases, binp, props_chk, out, label="impl-random"):
         elif cfg.get("progress") and any(f.startswith("hang") or f == "incomplete" for f in fl):
             rec["what"] = "a call did not return on the implementation (hang): %s" % "; ".join(fl)
             rec["checker"] = "progress"
+            rec["impl_trace"] = il
+            out["violations"].append(rec)
+        elif prop in ("C16", "C17", "C18") and any(f.startswith("unparsed:panic") for f in fl):
+            rec["what"] = "an operation panicked with a panic that is none of the documented ones: %s" % "; ".join(f for f in fl if f.startswith("unparsed"))
+            rec["checker"] = "undocumented-panic"
             rec["impl_trace"] = il
             out["violations"].append(rec)
 
@@ -841,7 +855,12 @@ def run_check(prop, tier, seed):
         known_findings_reproduced=sorted(known_hit.keys()),
     )
     if extra_coverage.get(prop):
-        coverage.update(extra_coverage[prop])
+        ex = dict(extra_coverage[prop])
+        if ex.get("rule_only"):
+            coverage["rule"] = ex.pop("rule_only")
+        if ex.get("rule_extra"):
+            coverage["rule"] += "; in addition: " + ex.pop("rule_extra")
+        coverage.update(ex)
     ev = dict(property_id=prop, tier=tier, seed=seed, level=level, coverage=coverage,
               assumptions=ASSUMPTIONS.get(prop, []) + COMMON_ASSUMPTIONS,
               wall_s=round(wall, 2), violations=len(new_viol) + (1 if (exit_code == 1 and not new_viol) else 0))
@@ -886,7 +905,7 @@ def do_replay(prop, path):
     c = cases[0]
     profile = "release" if c["env"]["mode"] == "wrapping" else "debug"
     binp, blog = build_harness(profile)
-    if stream in ("twin", "frozen-thread", "allocator", "zst", "multi") and prop in SPECIAL:
+    if stream in ("twin", "frozen-thread", "allocator", "zst", "multi", "chunk-style") and prop in SPECIAL:
         ONLY[stream] = c
         problems = []
         try:
@@ -994,6 +1013,7 @@ def special_c13(prop, tier, seed, bins, out, problems):
     out["evaluations"] += compared
     out["traces_validated_against_impl"] += compared
     extra_coverage.setdefault(prop, {})["twin_comparisons"] = compared
+    extra_coverage[prop]["rule_extra"] = "twin stream: every generated adaptor history is also run on an identical underlying iterator under the same schedule and the two event streams are compared"
 
 
 SPECIAL["C13"] = special_c13
@@ -1014,9 +1034,18 @@ def special_c09(prop, tier, seed, bins, out, problems):
                                kinds=[("slice", 3), ("vec", 3), ("array", 2), ("range", 2)], adaptors=r.chance(1, 5))
         if len(c["progs"]) < 2:
             c["progs"].append(["next:val"])
-        c["freeze"] = [r.below(len(c["progs"])), r.below(8)]
         c["sched"] = None
-        cases.append(c)
+        if i % 4 == 0:
+            # every point at which one of the threads can be frozen early in its program
+            ft = r.below(len(c["progs"]))
+            for k in range(0, 12):
+                ck = json.loads(json.dumps(c))
+                ck["id"] = "%s-k%d" % (c["id"], k)
+                ck["freeze"] = [ft, k]
+                cases.append(ck)
+        else:
+            c["freeze"] = [r.below(len(c["progs"])), r.below(8)]
+            cases.append(c)
     if "frozen-thread" in ONLY:
         cases = [ONLY["frozen-thread"]]
     itraces, dead = run_impl(binp, cases)
@@ -1045,6 +1074,7 @@ def special_c09(prop, tier, seed, bins, out, problems):
     # the schedules chosen under the adversary, replayed in lock-step on the model and the crate
     explore(prop, PROPS[prop], replay, binp, "frozen-replay", PROPS[prop]["chk"], out)
     extra_coverage.setdefault(prop, {})["frozen_thread_cases"] = frozen_ok
+    extra_coverage[prop]["rule_extra"] = "frozen-thread stream: known-size kinds with one thread frozen after k of its steps while the harness picks the schedule of the others; the chosen schedules are replayed on the model"
 
 
 SPECIAL["C09"] = special_c09
@@ -1056,12 +1086,85 @@ def special_c14(prop, tier, seed, bins, out, problems):
     ex = out.get("extra", {})
     pr = ex.get("probes", {})
     extra_coverage.setdefault(prop, {})["probes"] = dict(pairs=len(pr), names=sorted(pr.keys())[:80])
+    extra_coverage[prop]["rule_only"] = ("probe programs under /verif/probes built against the current working tree of /repo: every compile probe is a pair "
+        "(a minimal client that rustc must reject with one of the expected error codes, and a twin differing only in the offending type or scope that must compile); "
+        "run-time probes are compiled and executed under a drop ledger; an evaluation is one program compiled (and run); a pair counts as distinct and non-trivial")
 
 
 SPECIAL["C14"] = special_c14
 
 
+def chunk_style_stream(prop, tier, seed, bins, out, problems):
+    """chunks consumed through the other methods of Iterator (nth, skip, last, count, fold, step_by) instead of next():
+    the model does not describe these consumptions, so the traces are judged by the extracted ledger and index
+    checkers only: every element of a consumed collection is handed out or destroyed exactly once"""
+    binp = bins.get("wrapping")
+    if binp is None:
+        return
+    n = 240 if tier == "quick" else 2400
+    r = gen_cases.Rng(seed * 313 + 8)
+    cases = []
+    for i in range(n):
+        c = gen_cases.gen_conc(r, "%s-style-%d" % (prop, i), dict(next=2, chunk=6, buf=4, skip=1),
+                               kinds=[("vec", 4), ("array", 3), ("iter", 3)], owning_only=True)
+        c["chunkstyle"] = r.choice(["nth", "skip", "last", "count", "fold", "stepby"])
+        c["final"] = r.choice(["drop", "seq:1", "seq:100"])
+        c["sched"] = None
+        cases.append(c)
+    if "chunk-style" in ONLY:
+        cases = [ONLY["chunk-style"]]
+    itraces, dead = run_impl(binp, cases)
+    iblocks, _ = parse_blocks(itraces)
+    rc = []
+    for c in cases:
+        c2 = json.loads(json.dumps(c))
+        il = iblocks.get(c["id"])
+        if il is not None:
+            c2["sched"] = sched_of(il)
+        rc.append(c2)
+    cases_path = os.path.join(BUILD, "tmp", "%s-style-%d.cases" % (prop, os.getpid()))
+    os.makedirs(os.path.dirname(cases_path), exist_ok=True)
+    open(cases_path, "w").write("".join(gen_cases.fmt_case(c) for c in rc))
+    chk, flags = run_chk(cases_path, itraces, [8, 2])
+    os.unlink(cases_path)
+    ok = 0
+    for c in rc:
+        cid = c["id"]
+        il = iblocks.get(cid)
+        rec = dict(case=c, stream="chunk-style")
+        if cid in dead or il is None:
+            rec.update(what="the harness process died on this case: %s" % dead.get(cid, "no output"), checker="process")
+            out["violations"].append(rec)
+            continue
+        failed = [p for p, good in chk.get(cid, {}).items() if not good]
+        fl = flags.get(cid, [])
+        if failed:
+            rec.update(what="chunk consumed with %s(): checker(s) %s return false on the implementation trace" % (c["chunkstyle"], ",".join("chk_C%02d" % int(p) for p in failed)),
+                       checker="chk_C%02d" % int(failed[0]), impl_trace=il)
+            out["violations"].append(rec)
+        elif any(f.startswith("hang") or f == "incomplete" or f.startswith("unparsed") for f in fl):
+            rec.update(what="chunk consumed with %s(): %s" % (c["chunkstyle"], "; ".join(fl)), impl_trace=il)
+            out["divergences"].append(rec)
+        else:
+            ok += 1
+    out["evaluations"] += len(cases)
+    out["random_schedules"] += len(cases)
+    out["traces_validated_against_impl"] += ok
+    extra_coverage.setdefault(prop, {})["chunk_style_cases"] = ok
+
+
+def special_c08(prop, tier, seed, bins, out, problems):
+    chunk_style_stream(prop, tier, seed, bins, out, problems)
+
+
+SPECIAL["C08"] = special_c08
+
+
 def special_c15(prop, tier, seed, bins, out, problems):
+    if "chunk-style" in ONLY or not ONLY:
+        chunk_style_stream(prop, tier, seed, bins, out, problems)
+    if "chunk-style" in ONLY:
+        return
     """(1) counting global allocator: every history is run three times in one process (create, consume fully / partly /
     not at all, drop, also after concurrent use); live bytes and blocks of the process must not grow from the second
     repetition on.  (2) zero-sized elements with a destructor: the number of elements dropped by the caller plus the
@@ -1071,6 +1174,12 @@ def special_c15(prop, tier, seed, bins, out, problems):
         return
     n = 300 if tier == "quick" else 3000
     cases = gen_cases.stream("C15", seed + 51, n, "wrapping")
+    ru = gen_cases.Rng(seed * 77 + 5)
+    for c in cases:
+        if ru.chance(1, 4):
+            # consumed not at all, or hardly: the end of life has everything left to release
+            c["progs"] = [p[:ru.below(2)] for p in c["progs"]]
+            c["final"] = ru.choice(["drop", "seq:0", "seq:1", "seq:100"])
     if "allocator" in ONLY:
         cases = [dict(ONLY["allocator"], id=ONLY["allocator"]["id"].replace("alloc-", ""))]
     elif "zst" in ONLY:
@@ -1161,7 +1270,8 @@ def special_c15(prop, tier, seed, bins, out, problems):
                                           what="zero-sized elements with a destructor: %d dropped by the caller + %d destroyed by the machinery != %d elements" % (a, b, ln)))
     out["evaluations"] += len(zc)
     out["random_schedules"] += len(zc)
-    extra_coverage.setdefault(prop, {}).update(allocator_cases=measured, zero_sized_cases=zok)
+    extra_coverage.setdefault(prop, {}).update(allocator_cases=measured, zero_sized_cases=zok,
+        rule_extra="allocator stream: every history repeated three times in one process under a counting global allocator (growth confirmed on six repetitions); zero-sized stream: elements without identity, only drop counts are compared with the length")
 
 
 SPECIAL["C15"] = special_c15
@@ -1303,7 +1413,32 @@ def special_c19(prop, tier, seed, bins, out, problems):
         ok += 1
     out["traces_validated_against_impl"] += ok
     out["distinct_nontrivial"] += ok
-    extra_coverage.setdefault(prop, {}).update(multi_iterator_histories=len(cases), single_iterator_projections=ok)
+    # run-time probes built against the crate as a client builds it (element types the harness does not have)
+    if "multi" not in ONLY:
+        import c14
+        rlib, deps, err = c14.build_crate(REPO)
+        if err:
+            problems.append("C19 probes: " + err)
+        else:
+            pdir = os.path.join(ROOT, "probes", "c19")
+            os.makedirs(os.path.join(BUILD, "c19"), exist_ok=True)
+            for src in sorted(glob.glob(os.path.join(pdir, "*.rs"))):
+                name = os.path.basename(src)[:-3]
+                exe = os.path.join(BUILD, "c19", name)
+                res = c14.rustc(src, exe, rlib, deps, True)
+                out["evaluations"] += 1
+                if not res["ok"]:
+                    problems.append("C19 probe %s does not compile against the current tree: %s" % (name, " / ".join(res["rendered"])[:600]))
+                    continue
+                rc, txt = sh([exe], timeout=60)
+                lines = txt.strip().splitlines()
+                if rc != 0 or not any(l.startswith("VERDICT: PASS") for l in lines):
+                    out["violations"].append(dict(case=None, stream="probes19", checker="probe", probe=name, impl_trace=lines[-20:],
+                                                  what="C19 probe %s: %s" % (name, next((l for l in lines if l.startswith("VERDICT")), "exit status %s" % rc))))
+                else:
+                    out["traces_validated_against_impl"] += 1
+    extra_coverage.setdefault(prop, {}).update(multi_iterator_histories=len(cases), single_iterator_projections=ok,
+        rule_extra="multi-iterator stream: 1-2 fresh iterators and the clones that 1-3 threads create over one slice or range, one harness-chosen schedule; each iterator's history is projected out and replayed on the single-iterator model started at the position the clone read")
 
 
 SPECIAL["C19"] = special_c19
